@@ -461,11 +461,14 @@ def driver_part(chk, tier):
     ms = models(tier)
     for i, (name, m, lin_idx) in enumerate(ms[::(7 if tier == 'quick' else 2)]):
         for cfgname, types in CONFIGS:
-            jobs.append((len(jobs), name, m, lin_idx, cfgname, acc_for(types)))
+            # answers with both vectors; every 3rd model also with only the dual / only the primal vector
+            for pat in (('both', 'dual-only', 'primal-only') if i % 3 == 0 else ('both',)):
+                jobs.append((len(jobs), name, m, lin_idx, cfgname, acc_for(types), pat))
     def one(job):
-        idx, name, m, lin_idx, cfgname, acc = job
+        idx, name, m, lin_idx, cfgname, acc, pat = job
         wd = os.path.join(work, 'r%05d' % idx)
-        run = vdriverlib.run(binary, wd, nl_text=m.nl(), script={'acc': acc, 'code': 0, 'ismip': 0, 'x': 'ramp', 'y': 'ramp',
+        run = vdriverlib.run(binary, wd, nl_text=m.nl(), script={'acc': acc, 'code': 0, 'ismip': 0, 'x': 'none' if pat == 'dual-only' else 'ramp',
+                                                                  'y': 'none' if pat == 'primal-only' else 'ramp',
                                                                   'obj': 'auto', 'basis': 'ramp'},
                              env_opts={'vdriver_options': 'basis=3 sol:chk:mode=0'})
         shutil.rmtree(wd, ignore_errors=True)
@@ -476,8 +479,12 @@ def driver_part(chk, tier):
         try: sol = vdriverlib.parse_sol(run['sol'])
         except Exception as e: return job, ['.sol not parsable: %s' % e], run
         norig = len(m.vars); nalg = len(m.acons)
-        if sol['nvars'] != norig or sol['nprimals'] != norig: probs.append('.sol primal count %s/%s != %d' % (sol['nvars'], sol['nprimals'], norig))
+        if pat == 'dual-only':
+            if sol['nprimals'] != 0: probs.append('.sol has %d primal values although the solver returned none' % sol['nprimals'])
+        elif sol['nvars'] != norig or sol['nprimals'] != norig: probs.append('.sol primal count %s/%s != %d' % (sol['nvars'], sol['nprimals'], norig))
         elif sol['primals'] != [100.0 + j for j in range(norig)]: probs.append('.sol primal values are not the solver values of the original variables')
+        if pat == 'primal-only' and sol['nduals'] != 0: probs.append('.sol has %d dual values although the solver returned none' % sol['nduals'])
+        if pat == 'dual-only' and sol['nduals'] != nalg: probs.append('.sol has %d dual values although the solver returned duals for all rows (%d constraints)' % (sol['nduals'], nalg))
         if sol['ncons'] != nalg: probs.append('.sol constraint count %d != %d' % (sol['ncons'], nalg))
         mt = match_rows(m, lin_idx, {'cons': d['cons'], 'vars': d['vars']})
         if mt is None: return job, probs + ['__unmatched__'], run
